@@ -536,8 +536,14 @@ func runCtlReplay(c *ctx) {
 	sc := bufio.NewScanner(f)
 	sc.Buffer(make([]byte, 1<<20), 1<<24)
 	cn := 0
+	var lines []string
 	for sc.Scan() {
-		line := strings.TrimSpace(sc.Text())
+		// a replay file carries one case per line, its C and E lines joined by " ;; "
+		for _, l := range strings.Split(sc.Text(), " ;; ") {
+			lines = append(lines, strings.TrimSpace(l))
+		}
+	}
+	for _, line := range lines {
 		switch {
 		case strings.HasPrefix(line, "C "):
 			if started {
